@@ -96,17 +96,67 @@ def ruleFires (re : Regex) (c : Ctx) (vs : VirtualService) (r : HTTPRoute) (req 
   if r.matchBlocks.isEmpty then true
   else r.matchBlocks.any (fun m => applicable m c && matchHolds re vs.sem m req)
 
+/-! ### What the action of a rule means (written from the API text of `Destination`, `PortSelector`,
+    `HTTPRedirect`; the compiler's own functions are proved equal to these in `Theorems.lean`) -/
+
+/-- The host a destination stands for: the named service, or - for a Kubernetes ExternalName alias -
+    the concrete service it points to. -/
+def specHost (c : Ctx) (d : Destination) : String :=
+  match c.lookupService d.host with
+  | some s => if s.externalName == "" then d.host else s.externalName
+  | none => d.host
+
+/-- `Destination.port`: "Specifies the port on the host that is being addressed. If a service exposes
+    only a single port it is not required to explicitly select the port."  Otherwise (several ports, or
+    a host outside the registry) the port the request was sent to. -/
+def specPort (c : Ctx) (d : Destination) : Nat :=
+  match d.port with
+  | some p => p
+  | none =>
+    match c.lookupService d.host with
+    | some s => if s.ports.length == 1 then s.ports.headD c.listenPort else c.listenPort
+    | none => c.listenPort
+
+/-- The upstream cluster of a destination: `outbound|<port>|<subset>|<host>`. -/
+def specCluster (c : Ctx) (d : Destination) : String :=
+  if d.host.isEmpty then "UnknownService" else subsetKey d.subset (specHost c d) (specPort c d)
+
 /-- The destination distribution of a rule: one destination takes everything; otherwise the
     non-zero weights. -/
 def specForward (c : Ctx) (ds : List RouteDest) : List (String × Nat) :=
   match ds with
-  | [d] => [(destinationCluster c d.dest, 1)]
-  | _ => (ds.filter (fun d => d.weight != 0)).map (fun d => (destinationCluster c d.dest, d.weight))
+  | [d] => [(specCluster c d.dest, 1)]
+  | _ => (ds.filter (fun d => d.weight != 0)).map (fun d => (specCluster c d.dest, d.weight))
+
+/-- Scheme the redirected client will use: the rule's, else that of the listener the request came in on. -/
+def effScheme (c : Ctx) (rd : Redirect) : String :=
+  if rd.scheme != "" then rd.scheme else if c.isTLS then "https" else "http"
+
+def isDefaultPort (scheme : String) (n : Nat) : Bool := (scheme == "http" && n == 80) || (scheme == "https" && n == 443)
+
+/-- Port written into the redirect: none unless the rule selects one (an explicit number, or
+    `FROM_REQUEST_PORT` = the listener port; `FROM_PROTOCOL_DEFAULT` = none); the default port of the
+    effective scheme is never written. -/
+def specRedirectPort (c : Ctx) (rd : Redirect) : Nat :=
+  match rd.port with
+  | .unset => 0
+  | .fromProtocolDefault => 0
+  | .port n => if isDefaultPort (effScheme c rd) n then 0 else n
+  | .fromRequestPort => if isDefaultPort (effScheme c rd) c.listenPort then 0 else c.listenPort
+
+/-- `HTTPRedirect`: new authority, new path (`uri`) or rewritten prefix, scheme, port, and the response
+    code (301 unless given). -/
+def specRedirect (c : Ctx) (rd : Redirect) : RedirectAction :=
+  { host := rd.authority
+    path := if rd.prefixRewrite != "" then .prefixRewrite rd.prefixRewrite else .pathRedirect rd.uri
+    scheme := rd.scheme
+    port := specRedirectPort c rd
+    code := if rd.code == 0 then 301 else rd.code }
 
 /-- What the rule says to do. -/
 def specAction (c : Ctx) (r : HTTPRoute) : Decision :=
   match r.redirect with
-  | some rd => .redirect (redirectAction c rd)
+  | some rd => .redirect (specRedirect c rd)
   | none =>
     match r.direct with
     | some d => .direct d.status d.body
